@@ -100,7 +100,7 @@ def run_case(spec):
         cnt("setop_checks")
         if np.any(okf & (gotf != inf_)):
             viol("membership_wrong_far_from_origin", {"n_wrong": int(np.sum(okf & (gotf != inf_)))})
-    for _ in range(spec["pairs"]):
+    for it in range(spec["pairs"]):
         scale = float(10.0 ** rng.uniform(-2, 2))
         a_pts = rand_shape(rng, scale)
         if rng.random() < 0.5:
@@ -267,6 +267,31 @@ def run_case(spec):
             check_stored(rs, "resample")
         except ValueError:
             valueerrors += 1
+        # --- a device WITH a mesh moved in place: mesh, polygons and probe points move together (coherence length != 1)
+        if it % 5 == 0:
+            try:
+                ext_m = float(np.sqrt(area0))
+                cen_m = np.mean(a0[:-1], axis=0)
+                cand_m = np.array([cen_m + np.array([0.0, 0.2 * ext_m]), cen_m + np.array([0.0, -0.2 * ext_m])])
+                in_m, _d = inside(cand_m, a0)
+                probes_m = cand_m if in_m.all() else None
+                layer_m = tdgl.Layer(coherence_length=float(rng.choice([0.5, 2.0, 0.1])) * ext_m / 10.0, london_lambda=2.0, thickness=0.1)
+                dm = tdgl.Device("dm", layer=layer_m, film=tdgl.Polygon("film", points=a_pts), probe_points=probes_m)
+                dm.make_mesh(max_edge_length=ext_m / 5.0)
+                cnt("device_mesh_move_checks")
+                p_before = np.array(dm.points, copy=True)
+                idx_before = None if probes_m is None else list(dm.probe_point_indices)
+                mv = np.array([0.8 * ext_m, -0.45 * ext_m])
+                dm.translate(mv[0], mv[1], inplace=True)
+                if np.max(np.abs(np.asarray(dm.points) - (p_before + mv))) > 1e-9 * max(ext_m, np.abs(p_before + mv).max()):
+                    viol("mesh_does_not_move_with_device", {"xi": float(layer_m.coherence_length), "max_err": float(np.max(np.abs(np.asarray(dm.points) - (p_before + mv))))})
+                elif probes_m is not None and list(dm.probe_point_indices) != idx_before:
+                    viol("probe_sites_change_under_translation", {})
+                with dm.translation(-0.3 * ext_m, 0.2 * ext_m):
+                    if np.max(np.abs(np.asarray(dm.points) - (p_before + mv + np.array([-0.3 * ext_m, 0.2 * ext_m])))) > 1e-9 * max(ext_m, np.abs(p_before + mv).max()):
+                        viol("mesh_does_not_move_with_device", {"where": "translation()", "xi": float(layer_m.coherence_length)})
+            except ValueError:
+                C["mesh_move_value_errors"] = C.get("mesh_move_value_errors", 0) + 1
         # --- Device membership: film and not holes
         try:
             film = tdgl.Polygon("film", points=a_pts)
@@ -321,6 +346,29 @@ def run_case(spec):
                         viol("device_probe_points_do_not_map_with_shapes", {"op": nm, "origin": org if nm == "scale_origin" else None})
             d4 = dev.rotate(float(rng.uniform(-180, 180)))
             d5 = dev.translate(float(rng.uniform(-1, 1) * scale), float(rng.uniform(-1, 1) * scale))
+            # translation() is a context manager: the device is back where it was when the block is left - also by an exception
+            cnt("device_context_checks")
+            z_before = dev.layer.z0
+            pr0 = None if dev.probe_points is None else np.array(dev.probe_points, copy=True)
+            class _Boom(Exception):
+                pass
+            for raise_inside in (False, True):
+                try:
+                    with dev.translation(0.37 * scale, -0.21 * scale, dz=0.4):
+                        if abs(dev.film.points[0, 0] - (f0[0, 0] + 0.37 * scale)) > 1e-9 * scale:
+                            viol("translation_context_does_not_move", {})
+                        if raise_inside:
+                            raise _Boom()
+                except _Boom:
+                    pass
+                if (np.max(np.abs(dev.film.points - f0)) > 1e-12 * max(scale, np.abs(f0).max()) or abs(dev.layer.z0 - z_before) > 1e-12
+                        or any(np.max(np.abs(h.points - x)) > 1e-12 * max(scale, np.abs(x).max()) for h, x in zip(dev.holes, h0))
+                        or (pr0 is not None and np.max(np.abs(np.asarray(dev.probe_points) - pr0)) > 1e-12 * max(scale, np.abs(pr0).max()))):
+                    viol("device_left_displaced_by_translation_context", {"exception_in_block": raise_inside, "film_shift": float(np.max(np.abs(dev.film.points - f0))), "z0": [z_before, dev.layer.z0]})
+                    break
+            # (there and back in floating point: the outlines may differ from the originals in the last bits from here on)
+            f0 = dev.film.points.copy()
+            h0 = [h.points.copy() for h in dev.holes]
             # the layer belongs to the device: derived devices never share it with, or write through to, the original
             cnt("device_layer_aliasing_checks")
             lay0 = (dev.layer.z0, dev.layer.coherence_length, dev.layer.london_lambda, dev.layer.thickness)
